@@ -6,6 +6,7 @@ produces are chained that way, with 1..8 control points per axis.
 -/
 import Sb.Properties.C01
 import Sb.Proofs.TrajNoWrap
+import Sb.Properties.C01Seconds
 
 namespace Sb.C01
 open Sb Sb.Spec Sb.Poly Sb.Proofs Sb.Traj
